@@ -307,6 +307,15 @@ func (g *Gen) Actions(fail func(t *rapid.T, err error)) map[string]func(*rapid.T
 			var err error
 			if pct(t, 85, "setsize?") {
 				sz := g.Offset(t, r.N)
+				if r.N != nil && pct(t, 25, "smallcut?") {
+					// cut off (or add) less than a block, often across a block boundary
+					d := uint64(pick(t, []int{1, 7, 100, 1000, 2048, 4000, 4095}, "cut"))
+					if rapid.Bool().Draw(t, "grow") {
+						sz = r.N.Size + d
+					} else if r.N.Size > d {
+						sz = r.N.Size - d
+					}
+				}
 				err = x.Setattr(r, &sz, pct(t, 30, "touch?"))
 			} else {
 				err = x.Setattr(r, nil, true)
